@@ -34,7 +34,9 @@ AXES = dict(
     # how the run starts: the built-in Gaussian, a results file written beforehand, the same without any renormalisation
     start=["builtin", "file", "file-norenorm"],
     # cut-off of the recorded CSR spectrum: the program's default (23 GHz), none at all, one inside the recorded band
-    cutoff=[None, 0, 3e11])
+    cutoff=[None, 0, 3e11],
+    # zero padding of the profile: the factor 2 every other case uses, none at all (circular wake), 1.5 and 3 (rounded up to a power of two), 2.6 taken literally
+    padding=[2, 1, 1.5, 3, "2.6|RoundPadding=false"])
 STARTFILE = {}
 IMP = {"none": ["-G", 0], "collimator": ["-G", -0.03, "--UseCSR", "false", "--CollimatorRadius", 0.002], "csr": ["-G", -0.03]}
 FS = 9e5    # synchrotron frequency dialled so that the bucket spacing is 1.39 phase spaces (keeps the multi-bunch transform short)
@@ -76,7 +78,8 @@ def configs(tier):
 
 
 def args_of(c, trackfile):
-    a = ["-s", c["n"], "-N", NPER, "-T", c["rot"], "-n", c["outstep"], "--SavePhaseSpace", c["save"], "--padding", 2, "-f", FS, "-d", 2e-5,
+    pad = str(c.get("padding", 2)).split("|")
+    a = ["-s", c["n"], "-N", NPER, "-T", c["rot"], "-n", c["outstep"], "--SavePhaseSpace", c["save"], "--padding", pad[0]] + (["--RoundPadding", "false"] if len(pad) > 1 else []) + ["-f", FS, "-d", 2e-5,
          "--PhaseSpaceShiftX", c["shift"][0], "--PhaseSpaceShiftY", c["shift"][1], "--RenormalizeCharge", c["renorm"], "--InitialDistZoom", 0.9]
     a += IMP[c["imp"]]
     if c.get("ring", "default") != "default":
@@ -131,7 +134,7 @@ def check_file(res, case, key, doc, c, rp):
     V = lambda k, what, detail: res.violate("%s/%s" % (key, k), case, detail, replay=rp)  # noqa: E731
 
     # ---- recorded parameters = launched values
-    launched = dict(GridSize=n, StepsPerTs=NPER, rotations=c["rot"], outstep=c["outstep"], SavePhaseSpace=c["save"], padding=2, SynchrotronFrequency=FS,
+    launched = dict(GridSize=n, StepsPerTs=NPER, rotations=c["rot"], outstep=c["outstep"], SavePhaseSpace=c["save"], padding=float(str(c.get("padding", 2)).split("|")[0]), SynchrotronFrequency=FS,
                     PhaseSpaceShiftX=c["shift"][0], PhaseSpaceShiftY=c["shift"][1], RenormalizeCharge=c["renorm"], InitialDistZoom=0.9, DampingTime=2e-5)
     for k, v in launched.items():
         if k not in P or abs(P[k] - v) > 1e-6 * max(1, abs(v)):
@@ -214,25 +217,36 @@ def check_file(res, case, key, doc, c, rp):
     # ---- wake potential = convolution of the stored profile with the stored impedance, absolute strength from the parameters
     if "/Impedance/data/real" in D and D["/Impedance/data/real"]["dims"][0] > 1 and D["/WakePotential/data"]["dims"][0] == len(t):
         zr, zi = D["/Impedance/data/real"]["data"], D["/Impedance/data/imag"]["data"]
+        # the transform length N: the file stores the N/2 non-negative-frequency samples, so N is 2*len - or 2*len+1 when the padding is taken literally
+        # (RoundPadding=false) and comes out odd; the launched padding decides for a single bunch
         N = 2 * len(zr)
+        if "RoundPadding=false" in str(c.get("padding", 2)) and nb == 1 and math.ceil(n * float(str(c["padding"]).split("|")[0]) - 1e-9) == N + 1:
+            N += 1
         buckets = D["/Info/BucketNumbers"]["data"]
         spacing = round(n * d["spacing_ps"]) if len(c["fill"]) > 1 else 0
-        s = d["Ib"] * d["dt"] * C / d["bl"] / (f32(dq) * d["sE"] * d["E0"]) / N
         wk = pl.rows(doc, "/WakePotential/data")
+        # a train padded literally: the file does not tell whether the length is 2*len or 2*len+1 - the stored wake is the convolution for one of the two
+        Ncands = [N, N + 1] if ("RoundPadding=false" in str(c.get("padding", 2)) and nb > 1) else [N]
         for it in range(nrec):
             train = {}
             for b in range(nb):
                 for x in range(n):
                     train[buckets[b] * spacing + x] = bp[it][b * n + x]
-            F = [sum(v * cmath.exp(-2j * math.pi * ((k * j) % N) / N) for j, v in train.items()) for k in range(N // 2)]
-            mxw = 0
-            errs = []
-            for b in range(nb):
-                for x in range(n):
-                    j = buckets[b] * spacing + x
-                    w = (complex(zr[0], zi[0]) * F[0]).real + 2 * sum((complex(zr[k], zi[k]) * F[k] * cmath.exp(2j * math.pi * ((k * j) % N) / N)).real for k in range(1, N // 2))
-                    errs.append(abs(wk[it][b * n + x] - s * w))
-                    mxw = max(mxw, abs(s * w))
+            best = None
+            for N in Ncands:
+                s = d["Ib"] * d["dt"] * C / d["bl"] / (f32(dq) * d["sE"] * d["E0"]) / N
+                F = [sum(v * cmath.exp(-2j * math.pi * ((k * j) % N) / N) for j, v in train.items()) for k in range(len(zr))]
+                mxw = 0
+                errs = []
+                for b in range(nb):
+                    for x in range(n):
+                        j = buckets[b] * spacing + x
+                        w = (complex(zr[0], zi[0]) * F[0]).real + 2 * sum((complex(zr[k], zi[k]) * F[k] * cmath.exp(2j * math.pi * ((k * j) % N) / N)).real for k in range(1, len(zr)))
+                        errs.append(abs(wk[it][b * n + x] - s * w))
+                        mxw = max(mxw, abs(s * w))
+                if best is None or (mxw > 0 and max(errs) / mxw < best[0]):
+                    best = (max(errs) / mxw if mxw > 0 else 0, errs, mxw)
+            _, errs, mxw = best
             step = round(t[it] * NPER)
             renorm_step = c["renorm"] > 0 and step % c["renorm"] == 0
             if mxw > 0:
@@ -252,10 +266,12 @@ def check_file(res, case, key, doc, c, rp):
                 # the one bin that is not stored (k = N/2) - all configurations here radiate into free space:
                 # S_top = dq^2 * Re Z_fs(N/2) * |F(N/2)|^2 with the free-space formula 306.3*(f/f0)^(1/3)
                 Nr = 2 * m
+                if "RoundPadding=false" in str(c.get("padding", 2)) and math.ceil(n * float(str(c["padding"]).split("|")[0]) - 1e-9) == Nr + 1:
+                    Nr += 1
                 fmax = n * C / (pq * d["bl"])
                 f0 = C / (2 * math.pi * (P["BendingRadius"] if P["BendingRadius"] > 0 else C / (2 * math.pi * d["frev"])))
                 ztop = 306.3 * ((Nr // 2) * (fmax / f0 / (Nr - 1))) ** (1.0 / 3)
-                ftop = sum(v * (-1) ** x for x, v in enumerate(bp[it][b * n:(b + 1) * n]))
+                ftop = abs(sum(v * cmath.exp(-2j * math.pi * (Nr // 2) * x / Nr) for x, v in enumerate(bp[it][b * n:(b + 1) * n])))      # even length: sum of v (-1)^x
                 fc = P.get("CutoffFreq", 0)
                 ftop_hz = (Nr // 2) / (Nr - 1.0) / f32(dq) * (C / d["bl"])
                 cut = (1 - math.exp(-(ftop_hz / fc) ** 2)) if fc > 0 else 1.0
